@@ -208,6 +208,7 @@ func (x *Exec) loadGlobal(e *Env, name string, t types.Type) Val {
 	}
 	es := sortOf(t)
 	arr := "G." + name
+	x.notePtr(arr, t)
 	var h string
 	if e != nil {
 		h = e.heap(arr, es)
@@ -354,6 +355,7 @@ func (x *Exec) fieldRead(heap func(name, esort string) string, base, tn string, 
 		return term(app(quote(lf.name), base), SInt, types.NewPointer(ft))
 	}
 	es := sortOf(ft)
+	x.notePtr(tn+"."+f.Name(), ft)
 	return term(sel(heap(tn+"."+f.Name(), es), base), es, ft)
 }
 
@@ -512,6 +514,13 @@ func (e *Env) call(c *ECall) Val {
 		return intv(app("sarr", arg(0).T))
 	case "off":
 		return intv(app("soff", arg(0).T))
+	case "content":
+		// the whole backing array of a byte slice, as an (Array Int Int) indexed by absolute position
+		a := arg(0)
+		if a.S != SSlice {
+			e.fail("content() of non-slice")
+		}
+		return term(sel(e.heap("mem.byte", "(Array Int Int)"), app("sarr", a.T)), "(Array Int Int)", nil)
 	case "be16":
 		return intv(e.beValue(arg(0), arg(1).T, 2))
 	case "be32":
@@ -519,17 +528,17 @@ func (e *Env) call(c *ECall) Val {
 	case "be64":
 		return intv(e.beValue(arg(0), arg(1).T, 8))
 	case "u8":
-		return intv(wrapTo(types.Typ[types.Uint8], arg(0).T))
+		return intv(wrapFrom(types.Typ[types.Uint8], arg(0).Ty, arg(0).T))
 	case "u16":
-		return intv(wrapTo(types.Typ[types.Uint16], arg(0).T))
+		return intv(wrapFrom(types.Typ[types.Uint16], arg(0).Ty, arg(0).T))
 	case "u32":
-		return intv(wrapTo(types.Typ[types.Uint32], arg(0).T))
+		return intv(wrapFrom(types.Typ[types.Uint32], arg(0).Ty, arg(0).T))
 	case "u64":
-		return intv(wrapTo(types.Typ[types.Uint64], arg(0).T))
+		return intv(wrapFrom(types.Typ[types.Uint64], arg(0).Ty, arg(0).T))
 	case "i32":
-		return intv(wrapTo(types.Typ[types.Int32], arg(0).T))
+		return intv(wrapFrom(types.Typ[types.Int32], arg(0).Ty, arg(0).T))
 	case "i64":
-		return intv(wrapTo(types.Typ[types.Int64], arg(0).T))
+		return intv(wrapFrom(types.Typ[types.Int64], arg(0).Ty, arg(0).T))
 	case "birth":
 		return intv(app("birth", arg(0).T))
 	case "fresh":
